@@ -1,4 +1,4 @@
-import IcyVerif.Lemmas.TermStep
+import IcyVerif.Lemmas.TermCost
 import IcyVerif.Gen.Loops
 /-! # C03 — work per input is bounded by screen size, not by numbers in the input
 What is proved (about the TermGeo model of the repaired code, for every parameter value):
@@ -7,8 +7,8 @@ What is proved (about the TermGeo model of the repaired code, for every paramete
   `all_loops_known` fails as soon as the source contains a loop (or a bound expression) that is not in the table;
 * a numeric parameter never exceeds `i32::MAX` however many digits it has;
 * a hex macro body is never expanded beyond the macro space (`hexMacro_len`), whatever its repeat counts;
-* macro replay is structurally bounded: depth `MAX_MACRO_DEPTH`, and `replay` stops when the expansion budget is
-  used up (`replay_budget`).
+* macro replay is bounded: one input character executes at most 1 + 65536 parser steps whatever the macros are
+  (`macro_expansion_bounded`, by a potential argument over nesting depth and expansion budget).
 What the model cannot exhibit (labelled partial): wall-clock time, allocator behaviour, stack size — the oracle run
 of `harness/src/c03.rs` measures those on the real code (time and row growth per token, address-space cap);
 sixel raster/repeat headers, custom-font payloads and binary file headers are oracle-only. -/
@@ -136,6 +136,32 @@ theorem replay_budget (stepf : St → Char → R) (body : List Char) (st : St) (
   cases body with
   | nil => rfl
   | cons c rest => unfold replay; simp [h]
+
+/-- macro nesting clause: whatever macros are defined (self-invoking, mutually recursive, fan-out), one input
+    character makes the parser execute at most 1 + 65536 character steps (`tick` counts outer and replayed steps) -/
+theorem macro_expansion_bounded (cfg : Cfg) (o : Nat → Orc) (st st' : St) (ch : Char) (out : Out)
+    (h : step cfg o st ch = .ok (st', out)) : st'.p.tick ≤ st.p.tick + 1 + 65536 :=
+  macro_steps_bounded cfg o st st' ch out h
+
+/-- and a whole stream of n characters at most n * 65537 steps -/
+theorem stream_steps_bounded (cfg : Cfg) (o : Nat → Orc) : ∀ (cs : List Char) (st st' : St),
+    run cfg o st cs = .ok st' → st'.p.tick ≤ st.p.tick + cs.length * 65537 := by
+  intro cs
+  induction cs with
+  | nil => intro st st' h; simp only [run] at h; cases h; simp
+  | cons c rest ih =>
+    intro st st' h
+    unfold run at h
+    cases hs : step cfg o st c with
+    | error e => rw [hs] at h; cases h
+    | ok r =>
+      rw [hs] at h
+      obtain ⟨st1, out⟩ := r
+      have h1 := macro_steps_bounded cfg o st st1 c out hs
+      have h2 := ih st1 st' h
+      simp only [List.length_cons, MAX_MACRO_EXPANSION] at *
+      have : (rest.length + 1) * 65537 = rest.length * 65537 + 65537 := by omega
+      omega
 
 /-- non-vacuity: the table is not empty and the clamps are attained -/
 example : knownLoopIds.length = 52 := by decide
